@@ -182,7 +182,7 @@ fn main() {
     }
     let ctx = DCtx::from_args(&prop, &args[1..]);
     let t = ctx.tier;
-    ctx.run_sub("programs", t.pick(3_000, 60_000), 64, strategy, test);
+    ctx.run_sub("programs", t.pick(30_000, 1_000_000), 64, strategy, test);
     let code = ctx.finish(
         RULE,
         &[
